@@ -19,6 +19,9 @@ theorem component_inputs_sorted : componentInputsOrder = 1 := by decide
 /-- aliases are written sorted by name -/
 theorem aliases_sorted : aliasesOrder = 1 := by decide
 
+/-- literal nodes (named by their content) are listed by name, not in the order they were declared (the defect repaired by `8ffb229`) -/
+theorem literals_sorted : literalsOrder = 1 := by decide
+
 /-! ### what goes into the document, and when a loaded document is challenged -/
 open LK.Cfg
 
